@@ -20,10 +20,10 @@
         isConst    — the class attribute is a `Constant`
         hasDefault — `field._default is not None` after class creation
         optShape   — the field is `AnyOf/OneOf/AllOf` with exactly two options, the second a `NoneField`
-                     (the shape `_get_anyof_typing` renders as `Optional[X] = None`)
+                     (the shape `_get_anyof_typing` renders as `Optional[X]`)
     * the rendered annotation string of a field matters only through two tests the generator makes on it:
-      `startswith("Optional[")` and `endswith("= None")`; both are true exactly for `optShape` fields
-      (checked by the correspondence on every generated field).
+      `startswith("Optional[")` (true exactly for `optShape` fields; it only selects between two renderings that
+      both end with `= None`) and `endswith("= None")` (in `_get_ordered_args` / the helper methods).
     * the hierarchy is a tree (`ClassInfo.mk d bases`); the MRO of a tree-shaped hierarchy is the
       depth-first pre-order (C3 on disjoint lists), `mro`.
     * sets (`set(required)`, `set(names) | set(bases_params)`) are lists whose order is unspecified;
@@ -194,11 +194,15 @@ def runtimeRequired (dflt : Bool) (c : ClassInfo) (n : String) : Bool :=
 
 /-! ### stub side -/
 
-/-- does the rendered annotation of the field end with `= None`?  (`_get_anyof_typing` for the optional
-    shape; the `Optional[…] = None` wrapper of `get_all_type_info` for names not in `_required`) -/
+/-- does the annotation string stored by `get_all_type_info` end with `= None`?  `get_type_info` itself never
+    renders a trailing `= None` (since fix 08ea09e `_get_anyof_typing` gives the bare `Optional[X]`); the default
+    is appended by `get_all_type_info` exactly for names not in `_required`: `Optional[X] = None` for the
+    optional shape, the wrapper `Optional[T] = None` otherwise. -/
 def annEndsNone (required : List String) (f : FieldInfo) : Bool :=
-  if !required.contains f.name && !f.optShape then true   -- wrapped: `Optional[T] = None`
-  else f.optShape                                          -- as rendered by `get_type_info`
+  if !required.contains f.name then
+    (if f.optShape then true    -- `f"{type_info_str} = None"`
+     else true)                 -- `f"Optional[{type_info_str}] = None"`
+  else false                    -- as rendered by `get_type_info`
 
 /-- `get_all_type_info`: name ↦ annotation, reduced to (name, annotation ends with `= None`) -/
 def allTypeInfo (allF : List FieldInfo) (required : List String) : List Param :=
